@@ -6,6 +6,7 @@ CONSTANTS
   NoteSet = {0, 1}
   MaxNet = 3
   MaxBlobs = 2
+  MaxClock = 1
   Weaken = "none"
 VIEW MCView
 INVARIANTS NeverAcceptsEvil
